@@ -52,6 +52,26 @@ static HOWL_RETURNED: AtomicBool = AtomicBool::new(false);
 /// connection sits in the listener's backlog, so that "a connection is ready at the very poll that should notice the interrupt" is a
 /// forced schedule, not luck
 static HOLD_P12: AtomicBool = AtomicBool::new(false);
+static OUT_PATH: std::sync::OnceLock<String> = std::sync::OnceLock::new();
+
+/// Sends the process a real SIGINT - after looking at what the process would do with it. ohkami promises to notice the interrupt: by the
+/// time the server accepts connections its handler has to be installed, whatever the disposition was before (`./server &` from a
+/// non-interactive shell inherits SIG_IGN). With the default or the ignoring disposition in place the interrupt is lost by construction:
+/// that is reported as such (and the signal, which would kill or bypass the child, is not sent).
+fn raise_sigint(mode: &str) {
+    let mut old: libc::sigaction = unsafe { std::mem::zeroed() };
+    unsafe { libc::sigaction(libc::SIGINT, std::ptr::null(), &mut old) };
+    if old.sa_sigaction == libc::SIG_DFL || old.sa_sigaction == libc::SIG_IGN {
+        log("no_interrupt_handler_installed");
+        let logv: Vec<Value> = LOG.lock().unwrap().iter().map(|(s, e)| json!([s, e])).collect();
+        let doc = json!({"verdict": {"mode": mode, "interrupt_handler_installed": false, "disposition": if old.sa_sigaction == libc::SIG_DFL { "default" } else { "ignored" }}, "log": logv});
+        if let Some(out) = OUT_PATH.get() {
+            let _ = std::fs::write(out, serde_json::to_vec(&doc).unwrap());
+        }
+        unsafe { libc::_exit(0) }
+    }
+    unsafe { libc::kill(libc::getpid(), libc::SIGINT) };
+}
 
 fn log(e: impl Into<String>) -> u64 {
     let s = SEQ.fetch_add(1, Ordering::SeqCst);
@@ -289,6 +309,11 @@ pub fn child(args: &Args) {
     let idle: usize = args.flag("idle").map(|v| v.parse().unwrap()).unwrap_or(0);
     let late = args.flag("late").is_some();
     let boom = args.flag("boom").is_some();
+    let _ = OUT_PATH.set(args.out.clone());
+    if args.flag("sigign").is_some() {
+        // the process starts with SIGINT ignored, as a background job of a non-interactive shell does
+        unsafe { libc::signal(libc::SIGINT, libc::SIG_IGN) };
+    }
     *ST.lock().unwrap() = Some(St { schedule: schedule.clone(), turn: 0, armed: false, k, poll_count: 0, in_race_poll: false, poll_blocked: false, sig_blocked: false, poll_done: None, sig_done: false, realised: vec![], timed_out: false, forced, race_next: forced && k == 1, race_started: false, moved: 0 });
     *GATES.lock().unwrap() = vec![false; sessions];
     hook::set_sched(sched_callback);
@@ -330,7 +355,7 @@ pub fn child(args: &Args) {
                 verdict = json!({"inconclusive": "the accept loop never reached its k-th poll"});
             } else {
                 log("SIGINT");
-                unsafe { libc::kill(libc::getpid(), libc::SIGINT) };
+                raise_sigint("interleaving");
                 if !wait_for(|s| s.sig_blocked, 5) {
                     verdict = json!({"inconclusive": "the signal handler never started"});
                 } else {
@@ -397,7 +422,7 @@ pub fn child(args: &Args) {
                 HOLD_P12.store(true, Ordering::SeqCst);
             }
             log("SIGINT");
-            unsafe { libc::kill(libc::getpid(), libc::SIGINT) };
+            raise_sigint("sessions");
             // the loop must stop accepting: after the handler ran, new connections are refused or never served. "After the handler ran" is
             // read from the log (scheduling point s.end), not assumed after a pause: delivery of the signal to the ctrlc thread is the
             // kernel's business (and ThreadSanitizer defers asynchronous signals to a thread's next intercepted call, possibly for ever)
@@ -537,8 +562,11 @@ pub fn run(args: &Args, rep: &mut Report) {
         // scenario 0 is the witness of C18-X2 (connections ready at the poll that has to notice the interrupt)
         if rng.bool() || s == 0 { ex.push(("late", "1".into())) }
         if rng.chance(1, 3) { ex.push(("boom", "1".into())) }
+        // scenario 1 always, others sometimes: the process inherited SIG_IGN for SIGINT
+        if s == 1 || rng.chance(1, 4) { ex.push(("sigign", "1".into())) }
         let b = ex.iter().any(|(k, _)| *k == "boom");
-        work.push((format!("sess:{s}:n{n}:idle{idle}{}", if b { ":boom" } else { "" }), ex));
+        let ign = ex.iter().any(|(k, _)| *k == "sigign");
+        work.push((format!("sess:{s}:n{n}:idle{idle}{}{}", if ign { ":sigign" } else { "" }, if b { ":boom" } else { "" }), ex));
     }
     for (i, (name, extra)) in work.iter().enumerate() {
         if (i as u64) % args.nshards != args.shard || (i as u64) < args.start {
@@ -591,6 +619,14 @@ fn judge(rep: &mut Report, idx: u64, name: &str, doc: &Value) {
         rep.count("inconclusive_children");
         rep.count(&format!("inconclusive:{}", why.as_str().unwrap_or("?").split(' ').take(4).collect::<Vec<_>>().join("-")));
         return;
+    }
+    if v["interrupt_handler_installed"].as_bool() == Some(false) {
+        rep.violation("C18/interrupt-handler-not-installed", &format!("the server is up but SIGINT still has its {} disposition: ohkami did not install its handler, an interrupt would be lost", v["disposition"].as_str().unwrap_or("?")),
+            json!({"case_index": idx, "scenario": name, "verdict": v}));
+        return;
+    }
+    if name.contains(":sigign") {
+        rep.count("scenarios_started_with_sigint_ignored");
     }
     let cj = || json!({"case_index": idx, "scenario": name, "verdict": v, "log_tail": log.iter().rev().take(60).rev().map(|(s, e)| format!("{s}:{e}")).collect::<Vec<_>>()});
     match v["mode"].as_str() {
